@@ -123,3 +123,22 @@ pub fn schema_pad_u128() {
     assert!(rec.buf[3 + i] == 0, "[C18/padding.zero] padding rows cover only zero bytes");
     core::mem::forget(rows);
 }
+
+/// rendering: `Schema::debug` slices the data by row offset and size, `to_csv`
+/// walks the rows; neither may fail (formatting itself is stubbed)
+// @h schema_render_opt_u32 props=C18 tier=quick kind=complete vars="v:Option<u32>: to_csv() and debug(stream) on the recorded schema" fns="ser/write_with_names.rs:Schema::debug,ser/write_with_names.rs:Schema::to_csv"
+#[kani::proof]
+#[kani::unwind(17)]
+#[kani::stub(alloc::fmt::format, crate::c18_schema::stub_format)]
+pub fn schema_render_opt_u32() {
+    let v = <Option<u32>>::sym(0);
+    let mut rec = ArrSink::<32>::new();
+    let schema = ser_schema(&v, &mut rec);
+    assert!(schema.is_some(), "[C18/ok] serialization with schema recording succeeds");
+    let schema = schema.unwrap();
+    let csv = schema.to_csv();
+    let dump = schema.debug(rec.bytes());
+    core::mem::forget((csv, dump));
+    core::mem::forget(schema);
+    kani::cover!(true, "[cover] both renderings returned");
+}
